@@ -34,8 +34,6 @@ const (
 	// text without any digit ('', ' ', '-', '.') is stored as 0 into numeric columns without
 	// error or warning (TruncateStringToInt/Double return "0" and report no truncation).
 	kfBlankZero = "C27-blank-string-as-zero"
-	// text beyond the DOUBLE range ('1.8e308', '1e400') is stored as +-Inf without error.
-	kfDoubleInf = "C27-double-infinity"
 	// TIME values beyond +-838:59:59 are clamped silently (no error in strict mode, no warning).
 	kfTimeClamp = "C27-time-silent-clamp"
 	// INSERT IGNORE of an out-of-range DECIMAL / BIT / TIME (hours >= 1000) stores the zero
@@ -165,8 +163,6 @@ func region(c tcase, route string) string {
 		return kfBigintWrap
 	case floatLossy(c) && route != "api":
 		return kfTextViaFloat
-	case c.family == "float" && c.ddl == "DOUBLE" && c.rep == repNot:
-		return kfDoubleInf
 	case c.family == "time" && c.rep == repNot && strings.HasPrefix(c.why, "beyond"):
 		if route == "ignore" && strings.Contains(c.lit, "1000:") {
 			return kfIgnoreZero
@@ -249,9 +245,6 @@ func signature(c tcase, o outcome, why string) string {
 			return kfBigintWrap
 		}
 
-	case c.family == "float" && c.ddl == "DOUBLE" && c.rep == repNot && o.stored && !o.failed && (o.norm == "f:+Inf" || o.norm == "f:-Inf"):
-		return kfDoubleInf
-
 	case c.family == "time" && c.rep == repNot && strings.HasPrefix(c.why, "beyond") && o.stored && !o.failed && len(c.ignore) == 1 && o.norm == c.ignore[0] && o.warnings == 0:
 		return kfTimeClamp
 
@@ -298,7 +291,6 @@ func witnesses() []tcase {
 		{family: "integer", ddl: "BIGINT", lit: "'-9223372036854775853'", raw: "-9223372036854775853", numText: "-9223372036854775853", rep: repNot, why: "out of range", ignore: []string{"n:-9223372036854775808"}, ival: new(big.Int).Sub(new(big.Int).Neg(pow2(63)), bi(45)), side: "below-min string", boundary: true},
 		{family: "integer", ddl: "MEDIUMINT", lit: "'8454143x'", rep: repNot, why: "malformed number", ignore: []string{"n:8388607", "n:0"}, side: "malformed-tail", boundary: true},
 		{family: "integer", ddl: "INT", lit: "''", raw: "", rep: repNot, why: "not a number", ignore: []string{"n:0"}, side: "malformed ''", boundary: true},
-		{family: "float", ddl: "DOUBLE", lit: "'1e400'", raw: "1e400", rep: repNot, why: "out of range", ignore: []string{"f:1.7976931348623157e+308"}, side: "beyond-max", boundary: true},
 		{family: "time", ddl: "TIME(6)", lit: "'839:00:00'", raw: "839:00:00", rep: repNot, why: "beyond +-838:59:59", ignore: []string{"d:3020399000000"}, side: "out-of-range", boundary: true},
 		{family: "decimal", ddl: "DECIMAL(5,2)", lit: "1000", raw: int64(1000), rep: repNot, why: "out of range", ignore: []string{"n:99999/100"}, side: "above-max", boundary: true},
 		{family: "bit", ddl: "BIT(4)", lit: "16", raw: int64(16), rep: repNot, why: "does not fit the bits", ignore: []string{"n:15"}, side: "above-max", boundary: true},
